@@ -285,16 +285,19 @@ func minimize(prob *Problem, method Method, settings *Settings, converger Conver
 				case PostIteration:
 					panic("optimize: Method returned PostIteration")
 				case NoOperation, MajorIteration, MethodDone:
+					verifYield("distributor.beforeStats")
 					statsChan <- task
 				default:
 					if !task.Op.isEvaluation() {
 						panic("optimize: expecting evaluation operation")
 					}
+					verifYield("distributor.beforeWorker")
 					workerChan <- task
 				}
 			case <-done:
 				// No more evaluations will be sent, shut down the workers, and
 				// read the final tasks.
+				verifYield("distributor.beforeCloseWorkers")
 				close(workerChan)
 				for task := range operations {
 					if task.Op == MajorIteration {
@@ -313,6 +316,7 @@ func minimize(prob *Problem, method Method, settings *Settings, converger Conver
 		x := make([]float64, dim)
 		for task := range workerChan {
 			evaluate(prob, task.Location, task.Op, x)
+			verifYield("worker.afterEvaluate")
 			statsChan <- task
 		}
 		// Signal successful worker completion.
@@ -370,15 +374,18 @@ func minimize(prob *Problem, method Method, settings *Settings, converger Conver
 			default:
 				finalStatus = status
 				finalError = err
+				verifYield("stats.beforePostIteration")
 				results <- Task{
 					Op: PostIteration,
 				}
+				verifYield("stats.beforeCloseDone")
 				close(done)
 			}
 		}
 
 		// Send the result back to the Problem if there are still active workers.
 		if workersDone != nTasks && task.Op != MethodDone {
+			verifYield("stats.beforeReply")
 			results <- task
 		}
 	}
